@@ -515,3 +515,60 @@ Proof.
     destruct (feqb_spec (of_Z 1) 1) as [_|X]; [reflexivity|exfalso; apply X; reflexivity].
 Qed.
 End MulPoint.
+
+(* ---- remaining C12 components: what they emit, and subtraction ---- *)
+Section MoreComponents.
+Context {PR : PrimeR}.
+
+Theorem component_sub_point_rows a b s :
+  let n := length (wits s) in
+  fst (component_sub_point a b s) = (S (S n), S (S (S n))) /\
+  rows (snd (component_sub_point a b s)) =
+    rows s ++ [arith_row (c_neg (fst b) n)] ++ var_rows a (n, snd b) (S n) (S (S n)) (S (S (S n))) /\
+  length (wits (snd (component_sub_point a b s))) = S (S (S (S n))).
+Proof.
+  cbv zeta. unfold component_sub_point, component_add_point.
+  destruct (component_neg_point_rows b s) as (F1 & R1 & L1). cbv zeta in F1, R1, L1.
+  destruct (component_neg_point b s) as [nb s1]. cbn [fst snd] in F1, R1, L1. subst nb.
+  destruct (add_point_gates_shape a (length (wits s), snd b) s1) as (F2 & R2 & L2). cbv zeta in F2, R2, L2.
+  rewrite L1 in F2, R2, L2. repeat split.
+  - exact F2.
+  - rewrite R2, R1, <- app_assoc. reflexivity.
+  - exact L2.
+Qed.
+
+Theorem component_select_identity_rows bit a s :
+  let n := length (wits s) in
+  fst (component_select_identity bit a s) = (n, S n) /\
+  rows (snd (component_select_identity bit a s)) =
+    rows s ++ map arith_row (c_boolean bit :: selid_rows bit a n) /\
+  length (wits (snd (component_select_identity bit a s))) = S (S n).
+Proof.
+  cbv zeta. unfold component_select_identity.
+  destruct (component_boolean_emits bit s) as [Rb Wb]. cbn [map] in Rb. rewrite app_nil_r in Wb.
+  destruct (select_identity_gates_rows bit a (component_boolean bit s)) as (F & R & L). cbv zeta in F, R, L.
+  rewrite Wb in F, R, L.
+  repeat split; [exact F| |exact L].
+  rewrite R, Rb, <- app_assoc. reflexivity.
+Qed.
+
+Context {ND : NonSquareD}.
+
+(* subtraction: the negation row followed by an addition block *)
+Theorem sub_point_sound asg a b n :
+  let P := (asg (fst a), asg (snd a)) in let Q := (asg (fst b), asg (snd b)) in
+  on_curve P -> on_curve Q ->
+  block_sat ([arith_row (c_neg (fst b) n)] ++ var_rows a (n, snd b) (S n) (S (S n)) (S (S (S n)))) asg ->
+  (asg (S (S n)), asg (S (S (S n)))) = ed_add P (ed_neg Q).
+Proof.
+  cbv zeta. intros CP CQ H.
+  change [arith_row (c_neg (fst b) n)] with (map arith_row [c_neg (fst b) n]) in H.
+  apply block_sat_app in H; [|apply closed_arith_block]. destruct H as [H1 H2].
+  apply block_sat_arith in H1. inversion H1 as [|? ? N _]; subst. apply neg_rel in N.
+  apply var_rows_iff in H2.
+  assert (CN : on_curve (asg (fst (n, snd b)), asg (snd (n, snd b)))).
+  { cbn [fst snd]. rewrite N. apply (ed_neg_on_curve (asg (fst b), asg (snd b))). exact CQ. }
+  destruct (var_rel_sound asg a (n, snd b) _ _ _ CP CN H2) as [S _]. cbn [fst snd] in S.
+  rewrite S, N. reflexivity.
+Qed.
+End MoreComponents.
